@@ -133,7 +133,7 @@ fn stage_explained(ctx: &Ctx, e: &KfEntry, v: &Violation) -> Option<bool> {
             let b = dfa_nfa(&st.minimized, cfg, k, &mut it, false).ok()?;
             eq_nfa(ctx, a, b, it)
         }
-        (M_EPSILON, "eliminate") => {
+        (M_EPSILON, "eliminate") | (M_EPSILON, "eliminate+print") => {
             // only the single test case "": the minimised automaton lost its only final state and the
             // elimination fallback (empty literal) happens to compensate
             Some(st.trie.states.len() == 1 && st.trie.finals.contains(&st.trie.start) && st.minimized.finals.is_empty() && st.expression.is_empty())
